@@ -2,7 +2,8 @@
 C05 — kernel matrices match their mathematical definitions.
 
 Proof: lean/Xrfmv/Props/C05.lean (symmetry, unit diagonal, range, light = L2, product = Lpq(q,q), row-locality,
-alias table over the regenerated Gen.Alias).  PSD is NOT proved (C05_psd is a `def … : Prop`).
+alias table over the regenerated Gen.Alias; `C05_psd_holds`: Gram matrices are positive semi-definite for 0<q<=p<=2,
+Schoenberg's theorem proved from Bernstein's representation and the Schur product theorem).
 
 Correspondence: the real `Kernel.get_kernel_matrix` of every CPU kernel class and `RFM(kernel=<alias>).kernel`
 for every alias string accepted on CPU, versus the Lean model run at Float (driver_c05, ops `kernel_matrix`,
@@ -12,7 +13,7 @@ implementation's distance is pushed through the monotone profile g(d) = exp(-d^q
 
 Property oracle (independent of the Lean model, evaluated on the implementation's output): closed form
 evaluated in numpy; for float64 Gram matrices symmetry, unit diagonal, range (0,1], lambda_min >= -allowance
-(numerical: PSD is not proved), row-locality; documented alias -> documented class.
+(the numerical face of the proved PSD theorem), row-locality; documented alias -> documented class.
 """
 import math
 
@@ -617,7 +618,7 @@ def check(run):
                 'exp(-d^q/L^q); a case is non-trivial when some off-diagonal entry lies in (1e-12, 1-1e-9)')
     run.assumptions = ['CPU only (Kermac kernels need CUDA)', 'finite inputs; rows of one common length',
                        'theorems are about exact real arithmetic: rounding is absorbed by the allowance, not modelled',
-                       'positive semi-definiteness is checked numerically only (C05_psd is not proved)',
+                       'positive semi-definiteness is proved at R (C05_psd_holds); on the float64 matrices the implementation returns it is checked as lambda_min >= -allowance',
                        'row-locality is claimed for a fixed bandwidth (a call performing a pending adaptation uses the adapted value for all rows)']
     _single_thread_blas()
     run.lean()
@@ -627,7 +628,7 @@ def check(run):
     cases = gen_cases(run, aliases)
     run.extra['exhaustive'] = True
     run.extra['exhaustive_part'] = 'families alias-table (all alias strings of Gen.Alias and of the source), ctor-guards (fixed grid); every alias also in alias-matrix'
-    run.extra['psd'] = 'numerical only: lambda_min(K) >= -(||allowance||_F + n*1e-14) on float64 Gram matrices with 0<q<=p<=2'
+    run.extra['psd'] = 'proved at R (C05_psd_holds, psd_laplace/product/light); numerically: lambda_min(K) >= -(||allowance||_F + n*1e-14) on float64 Gram matrices with 0<q<=p<=2'
     results = core.pmap(MOD, [{'cases': c} for c in core.chunks(cases, 64)])
     for r in results:
         if r.get('observations'):
